@@ -1094,12 +1094,13 @@ package rockredis
 //@ interface (github.com/youzan/ZanRedisDB/rockredis.expiration).getRawValueForHeader func(e expiration, ts int64, dt byte, key []byte) ([]byte, error)
 //@ interface (github.com/youzan/ZanRedisDB/rockredis.expiration).ExpireAt func(e expiration, dt byte, key []byte, rawValue []byte, when int64) (int64, error)
 //@   ghostset ghost(expireat, e) := when
-//@   modifies ghost(expireat, e)
+//@   ghostset ghost(expirecalls, e) := old(ghost(expirecalls, e)) + 1
+//@   modifies ghost(expireat, e), ghost(expirecalls, e)
 //@ func (db *RockDB) expire(ts int64, dataType byte, key []byte, rawValue []byte, duration int64) (int64, error)
 //@   trusted nooverflow log seconds + duration wraps only for durations near 2^63, to a negative time that the policy refuses
 //@   requires db != nil && db.expiration != nil
 //@   ensures result1 == nil ==> ghost(expireat, db.expiration) == ts / 1000000000 + duration
-//@   modifies ghost(expireat, _)
+//@   modifies ghost(expireat, _), ghost(expirecalls, _)
 
 //@ property C08 C09
 // HSET / HSETNX / HINCRBY on one field: the hash size grows by one exactly when the store did not have the field,
@@ -1231,3 +1232,20 @@ package rockredis
 //@   modifies *
 //@ loop 1
 //@   invariant it != nil && rliOK(it) && !keyInfo.Expired && keyInfo.OldHeader != nil && keyInfo.OldHeader.UserData != nil && (keyInfo.OldHeader.Ver == 0 || keyInfo.OldHeader.Ver == 1) && smallTK(keyInfo.Table, keyInfo.VerKey) && collMetaOK(ZSetType, keyInfo.OldHeader.UserData)
+
+//@ property C10
+// EXPIRE / PERSIST on collections: a dead (expired or absent) collection gets no new expiry (reply 0, the policy is
+// not called); a live one gets exactly log-time seconds + duration, PERSIST asks for "no expiry" (0)
+//@ interface (github.com/youzan/ZanRedisDB/rockredis.expiration).encodeToRawValue func(e expiration, dt byte, h *headerMetaValue) []byte
+//@   ensures fresh(result)
+//@ func (db *RockDB) collExpire(ts int64, dt byte, key []byte, duration int64) (int64, error)
+//@   trusted nooverflow log seconds + duration (see expire)
+//@   requires db != nil && db.expiration != nil
+//@   ensures ghost(collexpired, db) == 1 ==> result0 == 0 && ghost(expirecalls, db.expiration) == old(ghost(expirecalls, db.expiration))
+//@   ensures ghost(expirecalls, db.expiration) != old(ghost(expirecalls, db.expiration)) ==> ghost(expireat, db.expiration) == duration + ts / 1000000000 && ghost(collexpired, db) != 1
+//@   modifies ghost(expireat, db.expiration), ghost(expirecalls, db.expiration)
+//@ func (db *RockDB) collPersist(ts int64, dt byte, key []byte) (int64, error)
+//@   requires db != nil && db.expiration != nil
+//@   ensures ghost(collexpired, db) == 1 ==> result0 == 0 && ghost(expirecalls, db.expiration) == old(ghost(expirecalls, db.expiration))
+//@   ensures ghost(expirecalls, db.expiration) != old(ghost(expirecalls, db.expiration)) ==> ghost(expireat, db.expiration) == 0 && ghost(collexpired, db) != 1
+//@   modifies ghost(expireat, db.expiration), ghost(expirecalls, db.expiration)
